@@ -13,7 +13,7 @@ entered at phase `k`: one entry (direction, entry phase) per instruction, in add
 * `Root.checkCert_certs`, `Root.checkCert_ex`: every emitted program has a valid certificate;
 * `mkL_sk`: the one-pass `mkCertLoop` pushes exactly the explicit certificate on a laid-out skeleton
   (state invariant "after the pending pop": `eff`);
-* `Root.mkCert_eq`, `Root.checkCert_mk`, `emitted_checkCert`: `checkCert prog (mkCert prog) = true`.
+* `Root.mkCert_eq`, `Root.checkCert_mk`, `emit_checkCert_mk`: `checkCert prog (mkCert prog) = true`.
 
 No hypothesis beyond the fields `lay`, `size`, `ok`, `phase`, `ends` of `Root` is needed.
 -/
@@ -728,9 +728,9 @@ theorem Root.checkCert_mk {r : IR.Regex} {prog : Prog} {sk : Sk} (R : Root r pro
     checkCert prog (mkCert prog) = true := by
   rw [R.mkCert_eq]; exact R.checkCert_certs
 
-/-- **`emitted_checkCert`.** The phase certificate computed by `mkCert` validates on every program
+/-- **`emit_checkCert_mk`.** The phase certificate computed by `mkCert` validates on every program
 `emit` produces from a well-formed IR tree satisfying the IR-level side conditions. -/
-theorem emitted_checkCert {r : IR.Regex} {prog : Prog} (he : VM.emit r = .ok prog) (hw : IR.WF r.node)
+theorem emit_checkCert_mk {r : IR.Regex} {prog : Prog} (he : VM.emit r = .ok prog) (hw : IR.WF r.node)
     (hng : IR.numGroups r.node ≤ 65535) (hnl : numLoops r.node ≤ 65535)
     (hir : irOK r.node = true) : checkCert prog (mkCert prog) = true := by
   obtain ⟨sk, R⟩ := emit_root he hw hng hnl hir
@@ -742,34 +742,34 @@ The skeleton of `Proofs/C06.lean`'s `exProg3` (shortened chunks): an alternation
 splits the literal `a€` inside `€` (`…e2 | 82 ac`), and whose second branch has a look-behind with the
 literal `zé` split inside `é` (chunks in reverse order), followed by `q\b`. -/
 
-def exSk : Sk :=
+def phExSk : Sk :=
   .seq (.alt (.seq (.one (.byteSeq [0x61, 0xe2])) (.one (.byteSeq [0x82, 0xac])))
       (.seq (.look false true 0 0 (.seq (.one (.byteSeq [0xa9])) (.one (.byteSeq [0x7a, 0xc3]))))
         (.seq (.one (.byteSeq [0x71])) (.one (.wordBoundary false)))))
     (.one .goal)
 
-def exProg : Prog :=
+def phExProg : Prog :=
   { insns := #[.alt 4, .byteSeq [0x61, 0xe2], .byteSeq [0x82, 0xac], .jump 10,
       .lookbehind false 0 0 8, .byteSeq [0xa9], .byteSeq [0x7a, 0xc3], .goal,
       .byteSeq [0x71], .wordBoundary false, .goal],
     brackets := #[], loops := 0, groups := 0, flags := {  }, names := [], startPred := .arbitrary }
 
-example : Lay exProg.insns exSk 0 := by
-  simp only [Lay, exSk, Sk.size, lookI, At]
+example : Lay phExProg.insns phExSk 0 := by
+  simp only [Lay, phExSk, Sk.size, lookI, At]
   decide
 
-example : exSk.phase true 0 = some 0 := by
-  simp only [exSk, Sk.phase]
+example : phExSk.phase true 0 = some 0 := by
+  simp only [phExSk, Sk.phase]
   decide
 
-theorem exSk_certs : exSk.certs true 0 = [(true, 0), (true, 0), (true, 2), (true, 0), (true, 0),
+theorem phExSk_certs : phExSk.certs true 0 = [(true, 0), (true, 0), (true, 2), (true, 0), (true, 0),
     (false, 0), (false, 1), (false, 0), (true, 0), (true, 0), (true, 0)] := by
-  simp only [exSk, Sk.certs, Sk.phase]
+  simp only [phExSk, Sk.certs, Sk.phase]
   decide
 
-example : exSk.ok 0 0 0 = true ∧ exSk.endsPlain = true := by decide
+example : phExSk.ok 0 0 0 = true ∧ phExSk.endsPlain = true := by decide
 
-example : mkCert exProg = certOfList (exSk.certs true 0) ∧ checkCert exProg (mkCert exProg) = true := by
-  rw [exSk_certs]; decide +kernel
+example : mkCert phExProg = certOfList (phExSk.certs true 0) ∧ checkCert phExProg (mkCert phExProg) = true := by
+  rw [phExSk_certs]; decide +kernel
 
 end Regress.Certs
